@@ -189,6 +189,16 @@ def ontologyErrors (cs : List ParsedClass) (anc : Name → List Name) : Bool :=
 
 /-! ## `construction.understand_all`: what can go wrong with a rendered constructor -/
 
+/-- the properties assigned by the statements of a constructor as written, in order -/
+def Stmt.assigned : Stmt → Option Name
+  | .assign x => some x
+  | .callSuper _ => none
+
+def ownAssigns (c : ParsedClass) : List Name := c.ctor.filterMap Stmt.assigned
+
+/-- `_understand_body` refuses a statement it does not understand and (since the repair of C05-F1) an understood
+assignment to a property which an earlier statement of the same constructor assigned already
+("The property x is assigned more than once"). -/
 def constructionErrors (cs : List ParsedClass) : Bool :=
   cs.any (fun c => c.ctor.any (fun s =>
     match s with
@@ -197,7 +207,8 @@ def constructionErrors (cs : List ParsedClass) : Bool :=
       (match find? cs p with
        | some pc => !hasInit pc || pc.args.any (fun a => !(c.args.contains a))
        | none => true)
-    | .assign x => !(c.ownProps.contains x) || !(c.args.contains x)))
+    | .assign x => !(c.ownProps.contains x) || !(c.args.contains x))
+    || decide (¬ (ownAssigns c).Nodup))
 
 /-! ## `_second_pass_to_resolve_ancestors_and_descendants_in_place` -/
 
